@@ -3,7 +3,7 @@
 //! `(c and {r} or {e})[1]` with multi-valued operands parenthesised.
 use crate::lua::*;
 use crate::source::Source;
-use crate::{claim, note, witness};
+use crate::{claim, note, observe};
 use darklua_core::nodes::*;
 use darklua_core::verif as hooks;
 
@@ -206,8 +206,8 @@ fn if_branch_with<S: Source>(s: &mut S, condition_shapes: u8, result_shape: u8, 
         }
         _ => {}
     }
-    witness!(plain || result_shape != 0 && result_shape != 255, "and/or form chosen");
-    witness!(boxed, "boxed form chosen");
+    observe!(plain || result_shape != 0 && result_shape != 255, "and/or form chosen");
+    observe!(boxed, "boxed form chosen");
     claim!(s, plain || boxed, "an if-expression branch becomes `c and r or e` or `(c and {r} or {e})[1]`");
     claim!(s, well_formed, "the three operands appear once each, in evaluation order, in their own positions");
     if plain {
@@ -387,8 +387,8 @@ fn if_chain<S: Source>(s: &mut S, results_known_truthy: bool) {
         6
     };
     note!(s, "lowered: {:?} ; selects slot {} for truthiness {:?}, Lua selects slot {}", expression, selected, truthy, expected);
-    witness!(selected == 3, "the first elseif branch is selected");
-    witness!(selected == 6, "the else branch is selected");
+    observe!(selected == 3, "the first elseif branch is selected");
+    observe!(selected == 6, "the else branch is selected");
     claim!(s, !matches!(expression, Expression::If(_)), "no if-expression is left");
     claim!(s, selected < SLOTS, "the lowered expression is an and/or chain over the original operands (optionally boxed in one-element tables)");
     claim!(s, selected == expected, "the lowered chain yields the result of the first branch, in source order, whose condition holds");
